@@ -24,7 +24,7 @@ CONSTANTS
   Faults = {}
   AdvMsgs = {}
   MaxAdv = 0
-  Bridgers = {"A", "B"}
+  Bridgers = {"B"}
   MaxHandles = 1
   MaxCtr = 1
 VIEW View
